@@ -83,6 +83,18 @@ theorem branded_invariant :
 theorem not_send_not_sync :
     ∀ n ∈ requiredNotSendSync ++ table.branded, table.notSendSync n = true := by decide
 
+/-- The builders hand a caller-supplied value of their type parameter to the arena, and the safe
+finishing methods (`write`, `write_header`, `write_slice_with`, `copy_slice`) carry no `Collect`
+bound of their own — the bound is checked when the builder is created.  They must therefore be
+invariant in their value type parameters: a covariant `GcBuilder<'gc, &'static U>` coerces to
+`GcBuilder<'gc, &'gc U>`, and a `&'gc U` ends up stored in the arena, outliving its callback
+(defect D4 of the pinned tree; fixed by the `*mut T` marker). -/
+theorem builders_invariant_in_value_type :
+    ∀ nt ∈ [("GcBuilder", "T"), ("GcSliceBuilder", "E"), ("GcSliceWithHeaderBuilder", "H"),
+            ("GcSliceWithHeaderBuilder", "E"), ("GcSliceWithHeaderSliceBuilder", "H"),
+            ("GcSliceWithHeaderSliceBuilder", "E")],
+      table.variance nt.1 (.ty nt.2) = .inv := by decide
+
 /-- The crate contains no explicit (positive) `impl Send` / `impl Sync` at all. -/
 theorem no_explicit_auto_impls : table.violAutoImpls = [] := by decide
 
